@@ -213,6 +213,84 @@ def crc_config(env, tree, member):
 
 
 # ----------------------------------------------------------------------------------------------- generator
+# ----------------------------------------------------------------------------------------------- IEE key-blob layout
+_IEE_FIELDS = {"HEADER_TAG": "Hdr", "KEYBLOB_VERSION": "Version", "attributes": "Attr", "page_offset": "PageOffset",
+               "key1": "Key1", "key2": "Key2", "start_addr": "Start", "end_addr": "End", "crc": "Crc"}
+
+
+def _pieces(expr):
+    """operands of a chain of `+`"""
+    if isinstance(expr, ast.BinOp) and isinstance(expr.op, ast.Add):
+        return _pieces(expr.left) + _pieces(expr.right)
+    return [expr]
+
+
+def _field_of(node):
+    for n in ast.walk(node):
+        nm = n.attr if isinstance(n, ast.Attribute) else (n.id if isinstance(n, ast.Name) else None)
+        if nm in _IEE_FIELDS:
+            return _IEE_FIELDS[nm]
+    return None
+
+
+def iee_blob_layout(env, tree):
+    """{field: offset} and the total size of what `IeeKeyBlob.plain_data` concatenates, read from the sizes of the pieces
+    (struct.calcsize of the pack formats, the format of IeeKeyBlobAttribute.export, the align_block sizes, to_bytes(N)).
+    Handles `result += piece`, `result = a + b + …` and `return a + b + …`; anything else -> {} (opaque stand-ins)."""
+    import struct
+    cnode = _cls(tree, "IeeKeyBlob")
+    fn = _method(cnode, "plain_data")
+    if fn is None:
+        return {}
+    seq = []
+    for st in fn.body:
+        if isinstance(st, ast.AugAssign) and isinstance(st.op, ast.Add) and isinstance(st.target, ast.Name) and st.target.id == "result":
+            seq += _pieces(st.value)
+        elif isinstance(st, ast.Assign) and len(st.targets) == 1 and isinstance(st.targets[0], ast.Name) and st.targets[0].id == "result":
+            seq = [x for x in _pieces(st.value) if not (isinstance(x, ast.Call) and _callee_name(x) == "bytes" and not x.args)]
+        elif isinstance(st, ast.Return) and isinstance(st.value, ast.BinOp):
+            seq += [x for x in _pieces(st.value) if not (isinstance(x, ast.Name) and x.id == "result")]
+    out, off = {}, 0
+    try:
+        for piece in seq:
+            node = piece
+            if isinstance(node, ast.Name):                      # a local such as `crc`: its single assignment
+                tgt = _single_assignment(fn, node.id)
+                if tgt is None:
+                    return {}
+                out.setdefault(_field_of(node) or node.id, off)
+                node = tgt
+            if not isinstance(node, ast.Call):
+                return {}
+            callee = _callee_name(node)
+            if callee == "pack":
+                fmt = env.eval(node.args[0], cls="IeeKeyBlob")
+                body = fmt.lstrip("<>=!@")
+                if not (isinstance(fmt, str) and body.isalpha() and len(body) == len(node.args) - 1):
+                    return {}
+                for j, a in enumerate(node.args[1:]):
+                    f = _field_of(a)
+                    if f:
+                        out.setdefault(f, off + struct.calcsize("<" + body[:j]))
+                off += struct.calcsize("<" + body)
+            elif callee == "export":
+                out.setdefault("Attr", off)
+                off += struct.calcsize(env.cls("IeeKeyBlobAttribute").value("_FORMAT"))
+            elif callee == "align_block":
+                f = _field_of(node.args[0])
+                if f:
+                    out.setdefault(f, off)
+                off += env.eval(_arg(node, 1, "alignment"), cls="IeeKeyBlob")
+            elif callee == "to_bytes":
+                off += env.eval(_arg(node, 0, "length"), cls="IeeKeyBlob")
+            else:
+                return {}
+    except (NotConst, struct.error, TypeError, AttributeError, IndexError):
+        return {}
+    out["Size"] = off
+    return out
+
+
 def gen_FlashEncConsts():
     otfad, iee, bee, crc = (parse(p) for p in (OTFAD, IEE, BEE, CRC))
     eo, ei, eb, ec = ModuleEnv(otfad), ModuleEnv(iee), ModuleEnv(bee), ModuleEnv(crc)
@@ -262,6 +340,12 @@ def gen_FlashEncConsts():
     d("ieeKeyBlobsSize", cval(ei, "Iee", "IEE_KEY_BLOBS_SIZE"), "Iee.IEE_KEY_BLOBS_SIZE")
     d("ieeKeyFieldSize", call_arg_value(ei, iee, "IeeKeyBlob", "plain_data", "align_block", 1, "alignment"),
       "IeeKeyBlob.plain_data: align_block(self.key1 / self.key2, N)")
+
+    lay = iee_blob_layout(ei, iee)
+    for f in ("Version", "Attr", "PageOffset", "Key1", "Key2", "Start", "End", "Crc", "Size"):
+        d("ieeBlobOff" + f if f != "Size" else "ieeBlobSize", lay.get(f),
+          f"IeeKeyBlob.plain_data: offset of the {f} field" if f != "Size" else "IeeKeyBlob.plain_data: total size")
+    d("ieeAttrSize", cval(ei, "IeeKeyBlobAttribute", "_SIZE"), "IeeKeyBlobAttribute._SIZE")
 
     # ---------------- BEE
     try:
